@@ -340,6 +340,15 @@ class SiteWalker(exc.GuardWalker):
         self.tries.pop()
 
     def stmt(self, st, facts):
+        if isinstance(st, ast.Return) and isinstance(st.value, ast.Name) and \
+                self.func.name.startswith("try_get") and \
+                st.value.id in self.nullable:
+            # callers of try_get_* rely on a non-None result
+            v = st.value.id
+            self.sites.append(dict(
+                kind="nullable-return", node=st.value, base=v, param=None,
+                need=None, ok="dominated by a None / truthiness test of " + v
+                if v in facts.nonnull else None))
         if isinstance(st, ast.For):
             self.loops.append(st)
             out = super().stmt(st, facts)
@@ -842,6 +851,9 @@ def run(ctx):
                                   "RecursionError escape)",
                     "unhexlify": "hex decoding of text outside a try "
                                  "catching binascii.Error/ValueError",
+                    "nullable-return": "try_get_* returns a finder result "
+                                       "that may be None (its callers "
+                                       "dereference it)",
                     "nullable": "dereferences a finder/match result that "
                                 "may be None with no dominating test "
                                 "(AttributeError)",
